@@ -161,7 +161,7 @@ def pp_pat(p):
     if k in ("Deref", "DerefPattern"):
         return "&" + pp_pat(p["sub"])
     if k == "Constant":
-        return p["value"]
+        return repr(p["value"]) if p.get("str") else p["value"]
     if k == "Range":
         return p["s"]
     if k == "Slice":
